@@ -49,8 +49,10 @@ unsafe impl<L: Lockable> RawLock for RetryingLockCollection<L> {
 			return;
 		}
 
-		// these will be unlocked in case of a panic
+		// these will be unlocked in case of a panic: `locks[0..locked]` are held,
+		// and so is `locks[first_index]` once `first_locked` is set
 		let first_index = Cell::new(0);
+		let first_locked = Cell::new(false);
 		let locked = Cell::new(0);
 		handle_unwind(
 			|| unsafe {
@@ -59,9 +61,11 @@ unsafe impl<L: Lockable> RawLock for RetryingLockCollection<L> {
 					// the same lock to be unlocked
 					// safety: we have the thread key
 					locks[first_index.get()].raw_write();
+					first_locked.set(true);
 					for (i, lock) in locks.iter().enumerate() {
 						if i == first_index.get() {
 							// we've already locked this one
+							locked.set(i + 1);
 							continue;
 						}
 
@@ -71,7 +75,7 @@ unsafe impl<L: Lockable> RawLock for RetryingLockCollection<L> {
 						// immediately after, causing a panic
 						// safety: we have the thread key
 						if lock.raw_try_write() {
-							locked.set(locked.get() + 1);
+							locked.set(i + 1);
 						} else {
 							// safety: we already locked all of these
 							attempt_to_recover_writes_from_panic(&locks[0..i]);
@@ -83,6 +87,7 @@ unsafe impl<L: Lockable> RawLock for RetryingLockCollection<L> {
 
 							// nothing is locked anymore
 							locked.set(0);
+							first_locked.set(false);
 
 							// call lock on this to prevent a spin loop
 							first_index.set(i);
@@ -96,7 +101,7 @@ unsafe impl<L: Lockable> RawLock for RetryingLockCollection<L> {
 			},
 			|| {
 				utils::attempt_to_recover_writes_from_panic(&locks[0..locked.get()]);
-				if first_index.get() >= locked.get() {
+				if first_locked.get() && first_index.get() >= locked.get() {
 					locks[first_index.get()].raw_unlock_write();
 				}
 			},
@@ -149,20 +154,25 @@ unsafe impl<L: Lockable> RawLock for RetryingLockCollection<L> {
 			return;
 		}
 
+		// `locks[0..locked]` are held, and so is `locks[first_index]` once
+		// `first_locked` is set
 		let locked = Cell::new(0);
 		let first_index = Cell::new(0);
+		let first_locked = Cell::new(false);
 		handle_unwind(
 			|| 'outer: loop {
 				// safety: we have the thread key
 				locks[first_index.get()].raw_read();
+				first_locked.set(true);
 				for (i, lock) in locks.iter().enumerate() {
 					if i == first_index.get() {
+						locked.set(i + 1);
 						continue;
 					}
 
 					// safety: we have the thread key
 					if lock.raw_try_read() {
-						locked.set(locked.get() + 1);
+						locked.set(i + 1);
 					} else {
 						// safety: we already locked all of these
 						attempt_to_recover_reads_from_panic(&locks[0..i]);
@@ -175,6 +185,7 @@ unsafe impl<L: Lockable> RawLock for RetryingLockCollection<L> {
 
 						// these are no longer locked
 						locked.set(0);
+						first_locked.set(false);
 
 						// don't go into a spin loop, wait for this one to lock
 						first_index.set(i);
@@ -187,7 +198,7 @@ unsafe impl<L: Lockable> RawLock for RetryingLockCollection<L> {
 			},
 			|| {
 				utils::attempt_to_recover_reads_from_panic(&locks[0..locked.get()]);
-				if first_index.get() >= locked.get() {
+				if first_locked.get() && first_index.get() >= locked.get() {
 					locks[first_index.get()].raw_unlock_read();
 				}
 			},
